@@ -1741,3 +1741,47 @@ package spec
 //@   property C06
 //@   requires 0 <= i && i < len(items) && 0 <= j && j < len(items) && 0 <= k && k < len(items)
 //@   ensures  [C06] transitive @@ result0 && result1 ==> result2
+
+// ---- pointer lookups on typed values agree with their JSON form (C15)
+//@ specfn errText(error) string
+//@ iface error.Error
+//@   params e
+//@   pure
+//@   ensures result == errText(e)
+// a typed value is in decoded form when its extension map only holds x- keys
+//@ define extOnly(m map[string]interface{}) bool = forall k string :: has(m, k) ==> isExtKey(k)
+
+//@ func verifLemmaParameterLookup
+//@   property C15
+//@   requires extOnly(p.Extensions)
+//@   requires (forall k string :: (knownKey("CommonValidations", k) || knownKey("SimpleSchema", k) || knownKey("ParamProps", k)) ==> !isExtKey(k) && k != "$ref") && !isExtKey("$ref")
+//@   ensures  [C15] extension-member @@ result2 != nil && oCnt(jv(result2), token) > 0 && isExtKey(token) ==> result1 == nil && holds(result0, "*interface{}") && encOf(*asPtr(result0, "*interface{}")) == oVal(jv(result2), token)
+//@   ensures  [C15] keyword-member @@ result2 != nil && oCnt(jv(result2), token) > 0 && !isExtKey(token) && token != "$ref" ==> result1 == nil && encOf(result0) == oVal(jv(result2), token)
+
+//@ func verifLemmaHeaderLookup
+//@   property C15
+//@   requires extOnly(h.Extensions)
+//@   requires (forall k string :: (knownKey("CommonValidations", k) || knownKey("SimpleSchema", k) || knownKey("HeaderProps", k)) ==> !isExtKey(k))
+//@   ensures  [C15] extension-member @@ result2 != nil && oCnt(jv(result2), token) > 0 && isExtKey(token) ==> result1 == nil && holds(result0, "*interface{}") && encOf(*asPtr(result0, "*interface{}")) == oVal(jv(result2), token)
+//@   ensures  [C15] keyword-member @@ result2 != nil && oCnt(jv(result2), token) > 0 && !isExtKey(token) ==> result1 == nil && encOf(result0) == oVal(jv(result2), token)
+
+//@ func verifLemmaItemsLookup
+//@   property C15
+//@   requires extOnly(i.Extensions)
+//@   requires (forall k string :: (knownKey("CommonValidations", k) || knownKey("SimpleSchema", k)) ==> !isExtKey(k) && k != "$ref") && !isExtKey("$ref")
+//@   ensures  [C15] extension-member @@ result2 != nil && oCnt(jv(result2), token) > 0 && isExtKey(token) ==> result1 == nil && holds(result0, "*interface{}") && encOf(*asPtr(result0, "*interface{}")) == oVal(jv(result2), token)
+//@   ensures  [C15] keyword-member @@ result2 != nil && oCnt(jv(result2), token) > 0 && !isExtKey(token) && token != "$ref" ==> result1 == nil && encOf(result0) == oVal(jv(result2), token)
+
+//@ func verifLemmaPathsLookup
+//@   property C15
+//@   requires extOnly(p.Extensions) && (forall k string :: has(p.Paths, k) ==> isPathKey(k))
+//@   ensures  [C15] extension-member @@ result2 != nil && oCnt(jv(result2), token) > 0 && isExtKey(token) ==> result1 == nil && holds(result0, "*interface{}") && encOf(*asPtr(result0, "*interface{}")) == oVal(jv(result2), token)
+//@   ensures  [C15] path-member @@ result2 != nil && oCnt(jv(result2), token) > 0 && !isExtKey(token) ==> result1 == nil && holds(result0, "*PathItem") && encOf(*asPtr(result0, "*PathItem")) == oVal(jv(result2), token)
+
+//@ func verifLemmaResponsesLookup
+//@   property C15, C05
+//@   requires extOnly(r.Extensions)
+//@   ensures  [C15] extension-member @@ result2 != nil && oCnt(jv(result2), token) > 0 && isExtKey(token) ==> result1 == nil && holds(result0, "*interface{}") && encOf(*asPtr(result0, "*interface{}")) == oVal(jv(result2), token)
+//@   ensures  [C15] default-member @@ result2 != nil && oCnt(jv(result2), token) > 0 && token == "default" ==> result1 == nil && holds(result0, "*Response") && encOf(*asPtr(result0, "*Response")) == oVal(jv(result2), token)
+//@   ensures  [C15] status-code-member @@ result2 != nil && oCnt(jv(result2), token) > 0 && !isExtKey(token) && token != "default" ==> result1 == nil && holds(result0, "Response") && encOf(asValue(result0, "Response")) == oVal(jv(result2), token)
+//@   ensures  [C15,C05] absent-member-is-error @@ result2 != nil && oCnt(jv(result2), token) == 0 && token != "default" && (atoiOK(token) ==> itoa(atoi(token)) == token) ==> result1 != nil
